@@ -454,10 +454,12 @@ class Acc:
 
 
 def _branch(f, strategy):
-  """statements of `if strategy == '<strategy>':` at the top level"""
-  for s in f.node.body:
+  """the `if` whose test selects exactly `strategy` (top level or in an
+  elif chain)"""
+  for s in ast.walk(f.node):
     if isinstance(s, ast.If) and isinstance(s.test, ast.Compare) and \
-            ast.unparse(s.test) == "strategy == '%s'" % strategy:
+            ast.unparse(s.test) in ("strategy == '%s'" % strategy,
+                                    "'%s' == strategy" % strategy):
       return s
   return None
 
